@@ -262,8 +262,13 @@ func doReplay(bin, prop string, spec PropSpec, path string) int {
 	if err := json.Unmarshal(raw, &sched); err != nil {
 		die(2, "HARNESS: replay file: %v", err)
 	}
-	job := Job{Mode: "replay", Engine: sched.Engine, Property: sched.Property, Schedule: path, Out: filepath.Join(outDir, "replay.jsonl")}
-	lines, _, killed := runWorker(bin, job, filepath.Join(outDir, "replay.job.json"), 20*time.Minute, 1)
+	// worker job and output files are private to this invocation: two checks of one property may run
+	// at the same time (another tier, another copy of the harness)
+	scratch := filepath.Join(outDir, fmt.Sprintf("run.%d", os.Getpid()))
+	os.MkdirAll(scratch, 0o755)
+	defer os.RemoveAll(scratch)
+	job := Job{Mode: "replay", Engine: sched.Engine, Property: sched.Property, Schedule: path, Out: filepath.Join(scratch, "replay.jsonl")}
+	lines, _, killed := runWorker(bin, job, filepath.Join(scratch, "replay.job.json"), 20*time.Minute, 1)
 	if killed {
 		die(2, "HARNESS: replay timed out")
 	}
@@ -311,6 +316,10 @@ func doCheck(bin, prop string, spec PropSpec, tier string, seedBase uint64, budg
 	t0 := time.Now()
 	outDir := filepath.Join(verifDir, "out", prop)
 	os.MkdirAll(outDir, 0o755)
+	// worker job, output and log files are private to this invocation (see doReplay); replay files
+	// are named by seed and their content is a function of the seed, so they stay in outDir
+	scratch := filepath.Join(outDir, fmt.Sprintf("run.%d", os.Getpid()))
+	os.MkdirAll(scratch, 0o755)
 	if budget == 0 {
 		budget = spec.QuickS
 		if tier == "thorough" {
@@ -326,8 +335,8 @@ func doCheck(bin, prop string, spec PropSpec, tier string, seedBase uint64, budg
 		go func(w int) {
 			defer wg.Done()
 			job := Job{Mode: "batch", Engine: spec.Engine, Property: prop, Tier: tier, SeedBase: seedBase, Start: w, Stride: workers,
-				BudgetS: budget, Out: filepath.Join(outDir, fmt.Sprintf("w%02d.jsonl", w)), KeepSchedules: 1}
-			lines, exitErr, killed := runWorker(bin, job, filepath.Join(outDir, fmt.Sprintf("w%02d.job.json", w)), time.Duration(budget*4+120)*time.Second, 1)
+				BudgetS: budget, Out: filepath.Join(scratch, fmt.Sprintf("w%02d.jsonl", w)), KeepSchedules: 1}
+			lines, exitErr, killed := runWorker(bin, job, filepath.Join(scratch, fmt.Sprintf("w%02d.job.json", w)), time.Duration(budget*4+120)*time.Second, 1)
 			mu.Lock()
 			defer mu.Unlock()
 			var started *uint64
@@ -366,9 +375,9 @@ func doCheck(bin, prop string, spec PropSpec, tier string, seedBase uint64, budg
 					idx := int(*started - seedBase*1000003)
 					j2 := job
 					j2.Start, j2.Stride, j2.MaxRuns, j2.BudgetS = idx, 1, 1, 0
-					j2.Out = filepath.Join(outDir, fmt.Sprintf("w%02d.retry.jsonl", w))
+					j2.Out = filepath.Join(scratch, fmt.Sprintf("w%02d.retry.jsonl", w))
 					mu.Unlock()
-					l2, _, k2 := runWorker(bin, j2, filepath.Join(outDir, fmt.Sprintf("w%02d.retry.job.json", w)), 10*time.Minute, 1)
+					l2, _, k2 := runWorker(bin, j2, filepath.Join(scratch, fmt.Sprintf("w%02d.retry.job.json", w)), 10*time.Minute, 1)
 					mu.Lock()
 					for _, l := range l2 {
 						if l.Kind == "run" && l.Result != nil && !k2 {
@@ -421,8 +430,8 @@ func doCheck(bin, prop string, spec PropSpec, tier string, seedBase uint64, budg
 				sort.Slice(vr, func(i, j int) bool { return len(vr[i].sched.Steps) < len(vr[j].sched.Steps) })
 				rawPath := filepath.Join(outDir, fmt.Sprintf("known.%d.raw.json", vr[0].sched.Seed))
 				writeJSON(rawPath, vr[0].sched)
-				mjob := Job{Mode: "minimise", Engine: spec.Engine, Property: prop, Schedule: rawPath, Identity: id, Out: filepath.Join(outDir, "min.jsonl"), MinBudget: spec.MinBudget}
-				lines, _, _ := runWorker(bin, mjob, filepath.Join(outDir, "min.job.json"), 15*time.Minute, 1)
+				mjob := Job{Mode: "minimise", Engine: spec.Engine, Property: prop, Schedule: rawPath, Identity: id, Out: filepath.Join(scratch, "min.jsonl"), MinBudget: spec.MinBudget}
+				lines, _, _ := runWorker(bin, mjob, filepath.Join(scratch, "min.job.json"), 15*time.Minute, 1)
 				for _, l := range lines {
 					if l.Kind == "min" && l.Schedule != nil {
 						slug := strings.NewReplacer("|", "_", "/", "-", "(", "", ")", "").Replace(id)
@@ -441,8 +450,8 @@ func doCheck(bin, prop string, spec PropSpec, tier string, seedBase uint64, budg
 		rawPath := filepath.Join(outDir, fmt.Sprintf("%d.raw.json", first.sched.Seed))
 		writeJSON(rawPath, first.sched)
 		minPath := filepath.Join(outDir, fmt.Sprintf("%d.min.json", first.sched.Seed))
-		mjob := Job{Mode: "minimise", Engine: spec.Engine, Property: prop, Schedule: rawPath, Identity: id, Out: filepath.Join(outDir, "min.jsonl"), MinBudget: spec.MinBudget}
-		lines, _, killed := runWorker(bin, mjob, filepath.Join(outDir, "min.job.json"), 15*time.Minute, 1)
+		mjob := Job{Mode: "minimise", Engine: spec.Engine, Property: prop, Schedule: rawPath, Identity: id, Out: filepath.Join(scratch, "min.jsonl"), MinBudget: spec.MinBudget}
+		lines, _, killed := runWorker(bin, mjob, filepath.Join(scratch, "min.job.json"), 15*time.Minute, 1)
 		var min *core.Schedule
 		for _, l := range lines {
 			if l.Kind == "min" {
@@ -456,8 +465,8 @@ func doCheck(bin, prop string, spec PropSpec, tier string, seedBase uint64, budg
 		}
 		writeJSON(minPath, min)
 		// replay the minimised file in a fresh process
-		rjob := Job{Mode: "replay", Engine: spec.Engine, Property: prop, Schedule: minPath, Out: filepath.Join(outDir, "replaycheck.jsonl")}
-		rl, _, _ := runWorker(bin, rjob, filepath.Join(outDir, "replaycheck.job.json"), 15*time.Minute, 1)
+		rjob := Job{Mode: "replay", Engine: spec.Engine, Property: prop, Schedule: minPath, Out: filepath.Join(scratch, "replaycheck.jsonl")}
+		rl, _, _ := runWorker(bin, rjob, filepath.Join(scratch, "replaycheck.job.json"), 15*time.Minute, 1)
 		reproduced := false
 		for _, l := range rl {
 			if l.Kind == "run" && l.Result != nil && l.Result.Has(id) {
@@ -494,6 +503,9 @@ func doCheck(bin, prop string, spec PropSpec, tier string, seedBase uint64, budg
 		code = 2
 	}
 	writeEvidence(prop, spec, tier, seedBase, a, time.Since(t0).Seconds(), newViol, workers)
+	if code != 2 {
+		os.RemoveAll(scratch) // kept after harness trouble: the worker logs are the diagnosis
+	}
 	fmt.Printf("%s %s: %d runs, %d steps, %d distinct cases, %d new violation identities, %.0fs\n", prop, tier, a.runs, a.steps, len(a.caseKeys), newViol, time.Since(t0).Seconds())
 	return code
 }
